@@ -29,7 +29,7 @@ PLAN = {
     "thorough": {"shards": 8, "shard_timeout": 3600, "case_timeout": 90, "seq": 150000, "runs": 15000, "par": 2400, "max_case_timeouts": 10},
 }
 THRESHOLDS = {
-    "quick": {"individuals_checked": 5000, "sequential_calls": 600, "multi_objective_calls": 200, "representations": 300, "shared_problem_cases": 100, "runs": 70, "parallel_calls": 40, "parallel_individuals": 150, "set:completion_orders": 5, "parallel_with_evaluated_members": 10},
+    "quick": {"individuals_checked": 5000, "sequential_calls": 600, "multi_objective_calls": 200, "representations": 300, "shared_problem_cases": 100, "runs": 70, "parallel_calls": 40, "parallel_individuals": 150, "set:completion_orders": 5, "parallel_with_evaluated_members": 10, "parallel_batches_with_duplicates": 8},
     "thorough": {"individuals_checked": 120000, "parallel_calls": 600, "set:completion_orders": 40},
 }
 
@@ -87,7 +87,7 @@ def gen_cases(tier, seed):
     for i in range(plan["runs"]):
         yield {"kind": "run", "alg": rng.choice(["gp", "gp", "hc"]), "pop": rng.choice([2, 3, 5, 8]), "budget": rng.randint(5, 40), "multi": rng.random() < 0.3, "minimize": rng.random() < 0.5, "repr": rng.choice(["tree", "ge"]), "seed": rng.randrange(10**6)}
     for i in range(plan["par"]):
-        yield {"kind": "par", "n": rng.choice([1, 2, 3, 4, 6, 8]), "pre": rng.choice([0.0, 0.0, 0.3, 0.6]), "multi": rng.random() < 0.3, "minimize": rng.random() < 0.5, "repr": rng.choice(["tree", "ge"]), "seed": rng.randrange(10**6)}
+        yield {"kind": "par", "n": rng.choice([1, 2, 3, 4, 6, 8]), "pre": rng.choice([0.0, 0.0, 0.3, 0.6]), "dups": rng.random() < 0.4, "multi": rng.random() < 0.3, "minimize": rng.random() < 0.5, "repr": rng.choice(["tree", "ge"]), "seed": rng.randrange(10**6)}
 
 
 def setup(rec):
@@ -281,12 +281,21 @@ def run_par(case, rec):
     SequentialEvaluator().evaluate(prob, pre)
     if pre:
         rec.count("parallel_with_evaluated_members")
-    twin = copy.deepcopy(inds)  # same genotypes, own fitness stores
+    if case.get("dups") and inds:  # the same Individual object presented more than once in one batch
+        inds = inds + [rng.choice(inds) for _ in range(rng.choice([1, 2, 3]))]
+        rng.shuffle(inds)
+        rec.count("parallel_batches_with_duplicates")
+    twin = copy.deepcopy(inds)  # same genotypes, own fitness stores (deepcopy keeps the aliasing of duplicates)
     twin_prob = prob
     for a, b in zip(inds, twin):  # deepcopy drops weak-keyed fitness entries: restore the pre-evaluated ones
         if a.has_fitness(prob) and not b.has_fitness(twin_prob):
             b.set_fitness(twin_prob, a.get_fitness(prob))
-    new_positions = [k for k, i in enumerate(inds) if not i.has_fitness(prob)]
+    new_positions = []
+    seen_new = set()
+    for k, i in enumerate(inds):  # first presentation of every individual that has no fitness yet
+        if not i.has_fitness(prob) and id(i) not in seen_new:
+            seen_new.add(id(i))
+            new_positions.append(k)
     os.environ["GEV_C13_DELAY"] = "1"
     pe = ParallelEvaluator()
     b0 = len(read_log())
